@@ -233,8 +233,14 @@ def main_check(check, tier, seed, replay=None):
                 outs = [real.step(l) for l in sc]
                 run_scripts_with_oracle(check, real, [(sc, outs)], stats, violations)
         else:
-            run_scripts_with_oracle(check, real, check.batches(tier, rng, real), stats, violations)
-            violations += check.extra_violations(stats)
+            import drift
+            moved = drift.drifted(prop, os.environ.get("EG_REPO", "/repo"))
+            rounds = 1 + (2 if (moved and tier == "quick") else 0)
+            log["regen_source_drift"] = {"anchored_files_changed_since_transcription": moved, "correspondence_rounds": rounds}
+            for rnd in range(rounds):
+                r = rng if rnd == 0 else core.rng_for("%s/drift%d" % (prop, rnd), seed)
+                run_scripts_with_oracle(check, real, check.batches(tier, r, real), stats, violations)
+                violations += check.extra_violations(stats)
         # 5 classify
         final = []
         corr = [v for v in violations if v.kind == "correspondence"]
